@@ -70,10 +70,17 @@ class LeanLock:
 
 
 def load_findings():
-    if not os.path.exists(FINDINGS_FILE):
-        return []
-    with open(FINDINGS_FILE) as f:
-        return json.load(f)["findings"]
+    out = []
+    if os.path.exists(FINDINGS_FILE):
+        with open(FINDINGS_FILE) as f:
+            out.extend(json.load(f)["findings"])
+    extra = os.path.join(VERIF, "known_findings.d")
+    if os.path.isdir(extra):
+        for name in sorted(os.listdir(extra)):
+            if name.endswith(".json"):
+                with open(os.path.join(extra, name)) as f:
+                    out.extend(json.load(f)["findings"])
+    return out
 
 
 class Ctx:
@@ -151,6 +158,9 @@ class Ctx:
     # ----- violations -----------------------------------------------------
     def violation(self, what: str, replay: dict, found_input: bool = True):
         """record a violation; `replay` must be JSON-able and self-contained"""
+        self.violations_total = getattr(self, "violations_total", 0) + 1
+        if len(self.violations) >= 5:  # enough replays; keep the output readable
+            return
         os.makedirs(REPLAYS, exist_ok=True)
         body = {
             "property": self.prop,
@@ -174,11 +184,27 @@ class Ctx:
         self.search_boost = 8
 
     # ----- Lean -----------------------------------------------------------
-    def lean_build(self, targets=None):
-        """extract + lake build; never raises on a failed proof (records a tie break)"""
+    def lean_build(self, targets=None, extractors=None):
+        """extract + lake build + audit; never raises on a failed proof (records a tie break).
+        `extractors`: names of harness/extractors modules to run (None = all)."""
         from . import leanbuild
 
-        leanbuild.build(self, targets)
+        leanbuild.build(self, targets, extractors)
+
+    def replay_fixed_demos(self):
+        """every `fixed` finding with a demo script must pass on the current tree"""
+        import subprocess
+
+        for f in self.fixed_findings():
+            demo = f.get("witness", {}).get("demo")
+            if not demo:
+                continue
+            env = dict(os.environ, PYTHONPATH=REPO)
+            p = subprocess.run(["/venv/bin/python", os.path.join(VERIF, demo)], stdout=subprocess.PIPE, stderr=subprocess.STDOUT, text=True, env=env, timeout=300)
+            self.count()
+            if p.returncode != 0:
+                self.violation("repaired defect %s is back: %s" % (f["id"], f["description"]),
+                               {"kind": "demo", "demo": demo, "output": p.stdout[-1500:], "run": "/venv/bin/python " + demo})
 
     def driver(self, name: str, lines, timeout: int = 600):
         from . import leanbuild
